@@ -1158,11 +1158,6 @@ func ruleAggregateFunc(c *Ctx, mx *PkgIndex, rule string) {
 					if x.N == nil {
 						continue
 					}
-					if r := assignRHS(x.N, func(e ast.Expr) bool { v, ok := objOf(info, e).(*types.Var); return ok && v.Name() == "noSum" }); r != nil {
-						if tv := info.Types[r]; tv.Value != nil {
-							noSum = tv.Value.String()
-						}
-					}
 					inspectNoLit(x.N, func(n ast.Node) bool {
 						call, ok := n.(*ast.CallExpr)
 						if !ok {
@@ -1182,10 +1177,23 @@ func ruleAggregateFunc(c *Ctx, mx *PkgIndex, rule string) {
 								if len(call.Args) > 1 {
 									arg = "…"
 									// the histogram builders take noSum as their last argument: when it folds here, that is its value
-									if v, known := evalConst(info, call.Args[len(call.Args)-1], g.withLocals(env)); known && v.Kind() == constant.Bool {
-										if _, isID := unparen(call.Args[len(call.Args)-1]).(*ast.Ident); !isID {
-											noSum = v.String()
+									last := call.Args[len(call.Args)-1]
+									if lv, isV := objOf(info, last).(*types.Var); isV && !lv.IsField() {
+										// a local flag: what the assignments that can run for this kind give it (its declaration gives false)
+										for y := range seen {
+											if y.N == nil {
+												continue
+											}
+											if r := assignRHS(y.N, func(e ast.Expr) bool { return sameVar(info, e, lv) }); r != nil {
+												if tv := info.Types[r]; tv.Value != nil {
+													noSum = tv.Value.String()
+												} else if v, known := evalConst(info, r, g.withLocals(env)); known && v.Kind() == constant.Bool {
+													noSum = v.String()
+												}
+											}
 										}
+									} else if v, known := evalConst(info, last, g.withLocals(env)); known && v.Kind() == constant.Bool {
+										noSum = v.String()
 									}
 								}
 								builders = append(builders, cf.Name()+"("+arg+")")
